@@ -13,7 +13,7 @@ CLAIMS = {
          "Transcendental functions and the binomial approximations are over-approximated by arbitrary values (sound for the universally quantified ordering); float arithmetic is CBMC's IEEE-754 model; one concrete (lg_k, sigma) per float harness.", "DESIGN.md section 4 C01"),
  "C02": ("Quick tier: one update step of every HLL representation (list, 8-slot hash set, Array6, Array8, aux map incl. growth; Array4 with the exception slots concrete per instance - none, one, two colliding - and symbolic nibbles, cur_min and values; one cur_min shift with one exception) from an arbitrary representation-invariant-satisfying state at lg_k = 4, the mode life cycle list -> set / array for every lg_k, the three promotion functions in contract form (list -> set, set -> larger set, container -> Hll4/6/8 array hand every coupon of an arbitrary 8-slot source exactly once, unaltered, to the new representation's update(), which is a recorder there), coupon derivation and packing laws, estimator update, each compared with the per-slot-maximum / coupon-set model for all symbolic inputs within the bounds. Thorough tier adds the 16-slot set, every aux-table layout, shifts with 0 / 2 exceptions and the list -> array / set promotions over histories of 8 symbolic coupons (10-14 GB, > 10 min each; reported UNEXPLORED when they exceed the caps).",
          "Representation invariants written in the harnesses are assumed inductive (each step re-establishes them); register state at lg_k = 4 only, index arithmetic for all lg_k; HipEstimator::update replaced by a call recorder in register-model harnesses.", "DESIGN.md section 4 C02"),
- "C03": ("Quick tier: union kernels (same-lg_k merge, down-sampling merge, cached-value rebuild), the union of one array-mode input (Hll6 / Hll8) with all registers and the out-of-order flag symbolic, reset(), estimator update: compared with the register-wise-maximum model; the adopt-or-merge decision for a coupon-mode input for every pair of lg_k (the union's lg_k never changes). Thorough tier adds the coupon replay of merge_coupons_into_gadget / merge_coupons_into_mode in contract form (every coupon of an arbitrary 8-slot list / set source handed once to the receiver; 268 s), two array-mode inputs in both orders, to_sketch for the three target types and a coupon-mode input into an empty union (these need 10-14 GB and more than 10 min each; reported UNEXPLORED when they exceed the caps).",
+ "C03": ("Quick tier: union kernels (same-lg_k merge, down-sampling merge, cached-value rebuild), the union of one array-mode input (Hll6 / Hll8) with all registers and the out-of-order flag symbolic, reset(), estimator update: compared with the register-wise-maximum model; the adopt-or-merge decision for a coupon-mode input for every pair of lg_k (the union's lg_k never changes) and the coupon replay of merge_coupons_into_gadget / merge_coupons_into_mode in contract form (every coupon of an arbitrary 8-slot list / set source handed exactly once to the receiver). Thorough tier adds two array-mode inputs in both orders, to_sketch for the three target types and a coupon-mode input into an empty union (these need 10-14 GB and more than 10 min each; reported UNEXPLORED when they exceed the caps).",
          "lg_k 2-4 (code is parametric), at most two inputs (longer sequences follow from the model being a commutative idempotent fold - argued, not solved); coupon-mode inputs are decided only in the thorough tier (on this machine: unexplored) - their coupon replay goes through the C02 harnesses; HipEstimator::update / rebuild_cached_values replaced by recorders in register harnesses.", "DESIGN.md section 4 C03"),
  "C04": ("ThetaHashTable steps (probe sequence, try_insert, resize, rebuild, trim, reset) from arbitrary valid tables at nominal size 2-4 with symbolic hashes and theta, the size arithmetic for every lg_k, hash_and_screen against the reference digest, and compact()/estimate on arbitrary small sketches.",
          "Table instantiated below the public minimum lg_k = 5 (code parametric in the sizes); std select_nth_unstable / sort_unstable replaced by reference insertion-sort models of their contracts.", "DESIGN.md section 4 C04"),
